@@ -350,6 +350,10 @@ class Op:
                 i += 1
         return (self.head, tuple(ev), self.result)
 
+    def cblock(self):
+        h, ev, r = self.canon()
+        return ['> ' + h] + list(ev) + (['< ' + r] if r is not None else [])
+
     def kv(self, key):
         m = re.search(r'(?:^|\s)%s=(\S+)' % re.escape(key), self.result or '')
         return m.group(1) if m else None
@@ -397,8 +401,10 @@ class CorrResult:
         return not self.mismatches and not self.complaints and self.crash is None
 
 
-def run_pair(tree, variant, script_lines, tag):
-    """run script on the real code (harness variant) and on the model; diff. Returns CorrResult."""
+def run_pair(tree, variant, script_lines, tag, cone=None):
+    """run script on the real code (harness variant) and on the model; diff in the aspects named by `cone`
+    (vlib/cone.py; None = everything). Returns CorrResult."""
+    from . import cone as _cone
     t0 = time.time()
     res = CorrResult()
     res.variant = variant
@@ -439,7 +445,7 @@ def run_pair(tree, variant, script_lines, tag):
         if c.result is None and i == len(cops) - 1 and rc != 0:
             continue  # the crashing op itself, reported as crash
         m = mops[i] if i < len(mops) else None
-        if m is None or c.canon() != m.canon():
+        if m is None or (c.canon() != m.canon() and _cone.cone_differs(cone, c.cblock(), m.cblock())):
             res.mismatches.append((i, c.block(), m.block() if m else ['(model produced nothing)']))
             if len(res.mismatches) >= 25:
                 break
